@@ -9,7 +9,7 @@
 (* (checks/x02.py draws them; it knows defect NAMES only).  Cases are inputs only;    *)
 (* Reports_Trace judges what the code did with them.                                  *)
 EXTENDS ReportsAssign, Json, SequencesExt
-CONSTANTS OutFile, OracleFile, ComboFile
+CONSTANTS OutFile, OracleFile, ComboFile, WithSingles     \* WithSingles: include the baselines and single defects
 VARIABLE x
 
 P == TinyP
@@ -192,7 +192,7 @@ NS == Len(Scenarios)
 Singles == {<<si, <<>>>> : si \in 1..NS}
            \cup {<<si, <<[d |-> d, g |-> g]>>>> : si \in 1..NS, d \in Defects, g \in 1..2}
 Chosen == {p \in Singles : p[2] = <<>> \/ p[2][1].g <= Len(Scenarios[p[1]].cores)}
-Cases == UNION {Build(p[1], p[2]) : p \in Chosen}
+Cases == UNION {Build(p[1], p[2]) : p \in IF WithSingles THEN Chosen ELSE {}}
          \cup UNION {Build(((Combos[j].sc - 1) % NS) + 1, Combos[j].ds) : j \in 1..Len(Combos)}
 
 ASSUME ndJsonSerialize(OutFile, SetToSeq(Cases))
